@@ -21,7 +21,10 @@ pub struct HostileOutstation;
 pub fn property<C: Codec>() -> Property {
     Property {
         id: "C01",
-        scenarios: vec![erase::<C, _>(HostileMaster), erase::<C, _>(HostileOutstation)],
+        scenarios: vec![
+            erase::<C, _>(HostileMaster),
+            erase::<C, _>(HostileOutstation),
+        ],
     }
 }
 
@@ -33,15 +36,55 @@ pub fn gen_extreme_objects(rng: &mut Rng, with_data: bool) -> Vec<u8> {
     let n = rng.urange(1, 3);
     for _ in 0..n {
         let (group, var) = *rng.pick(&[
-            (1u8, 1u8), (1, 2), (2, 1), (2, 2), (3, 1), (10, 2), (12, 1), (20, 1), (21, 1), (22, 1), (30, 1), (30, 5), (32, 1), (34, 1), (40, 1), (41, 1), (41, 2), (50, 1), (50, 3), (52, 2),
-            (60, 1), (60, 2), (70, 5), (80, 1), (110, 0), (110, 1), (110, 4), (110, 255), (111, 1), (111, 255), (0, 254), (0, 255), (0, 240), (112, 1), (113, 1), (120, 1),
+            (1u8, 1u8),
+            (1, 2),
+            (2, 1),
+            (2, 2),
+            (3, 1),
+            (10, 2),
+            (12, 1),
+            (20, 1),
+            (21, 1),
+            (22, 1),
+            (30, 1),
+            (30, 5),
+            (32, 1),
+            (34, 1),
+            (40, 1),
+            (41, 1),
+            (41, 2),
+            (50, 1),
+            (50, 3),
+            (52, 2),
+            (60, 1),
+            (60, 2),
+            (70, 5),
+            (80, 1),
+            (110, 0),
+            (110, 1),
+            (110, 4),
+            (110, 255),
+            (111, 1),
+            (111, 255),
+            (0, 254),
+            (0, 255),
+            (0, 240),
+            (112, 1),
+            (113, 1),
+            (120, 1),
         ]);
         out.push(group);
         out.push(var);
         let a = *rng.pick(&EXTREMES);
         let b = *rng.pick(&EXTREMES);
-        let (start, stop) = if rng.chance(5, 6) { (a.min(b), a.max(b)) } else { (a.max(b), a.min(b)) };
-        let qual = *rng.pick(&[0x00u8, 0x01, 0x06, 0x07, 0x08, 0x17, 0x28, 0x5B, 0x02, 0x03, 0x09, 0x19, 0x2A, 0xFF]);
+        let (start, stop) = if rng.chance(5, 6) {
+            (a.min(b), a.max(b))
+        } else {
+            (a.max(b), a.min(b))
+        };
+        let qual = *rng.pick(&[
+            0x00u8, 0x01, 0x06, 0x07, 0x08, 0x17, 0x28, 0x5B, 0x02, 0x03, 0x09, 0x19, 0x2A, 0xFF,
+        ]);
         out.push(qual);
         let mut count = 0usize;
         match qual {
@@ -233,7 +276,11 @@ impl Scenario for HostileMaster {
     }
 
     fn stub_components(&self) -> Vec<&'static str> {
-        vec!["physical layer (simulated, hook H2)", "hostile master (reference codec + mutators)", "outstation application / control handler (recording stubs)"]
+        vec![
+            "physical layer (simulated, hook H2)",
+            "hostile master (reference codec + mutators)",
+            "outstation application / control handler (recording stubs)",
+        ]
     }
 
     fn generate(&self, rng: &mut Rng, _tier: Tier) -> SoutCase {
@@ -271,21 +318,56 @@ impl Scenario for HostileMaster {
                     for _ in 0..rng.urange(1, 4) {
                         script.push(Op::Update(gen_update(rng, &cfg.points, &mut clock)));
                     }
-                    script.push(Op::Request { func: refapp::FUNC_READ, seq: SeqSel::Next, headers: vec![ReqHeader::all(60, 2), ReqHeader::all(60, 3), ReqHeader::all(60, 4)], flags: None, from: Who::Master, to: Dest::Own });
+                    script.push(Op::Request {
+                        func: refapp::FUNC_READ,
+                        seq: SeqSel::Next,
+                        headers: vec![
+                            ReqHeader::all(60, 2),
+                            ReqHeader::all(60, 3),
+                            ReqHeader::all(60, 4),
+                        ],
+                        flags: None,
+                        from: Who::Master,
+                        to: Dest::Own,
+                    });
                 }
                 3 => {
                     // integrity read: several fragments with small transmit buffers
                     script.push(Op::Request {
                         func: refapp::FUNC_READ,
                         seq: SeqSel::Next,
-                        headers: vec![ReqHeader::all(60, 2), ReqHeader::all(60, 3), ReqHeader::all(60, 4), ReqHeader::all(60, 1)],
+                        headers: vec![
+                            ReqHeader::all(60, 2),
+                            ReqHeader::all(60, 3),
+                            ReqHeader::all(60, 4),
+                            ReqHeader::all(60, 1),
+                        ],
                         flags: None,
                         from: Who::Master,
                         to: Dest::Own,
                     });
                 }
-                4 => script.push(Op::Request { func: refapp::FUNC_ENABLE_UNSOL, seq: SeqSel::Next, headers: vec![ReqHeader::all(60, 2), ReqHeader::all(60, 3), ReqHeader::all(60, 4)], flags: None, from: Who::Master, to: Dest::Own }),
-                5 => script.push(Op::Confirm { uns: rng.bool(), seq: if rng.bool() { ConfSel::Expected } else { ConfSel::Fixed(rng.below(16) as u8) }, from: Who::Master }),
+                4 => script.push(Op::Request {
+                    func: refapp::FUNC_ENABLE_UNSOL,
+                    seq: SeqSel::Next,
+                    headers: vec![
+                        ReqHeader::all(60, 2),
+                        ReqHeader::all(60, 3),
+                        ReqHeader::all(60, 4),
+                    ],
+                    flags: None,
+                    from: Who::Master,
+                    to: Dest::Own,
+                }),
+                5 => script.push(Op::Confirm {
+                    uns: rng.bool(),
+                    seq: if rng.bool() {
+                        ConfSel::Expected
+                    } else {
+                        ConfSel::Fixed(rng.below(16) as u8)
+                    },
+                    from: Who::Master,
+                }),
                 _ => {}
             }
             // then the hostile input
@@ -295,22 +377,58 @@ impl Scenario for HostileMaster {
                     0..=2 => script.push(gen_request(rng, &cfg.points, cfg.rx)),
                     3 | 4 => {
                         // a mutated well-formed request
-                        if let Op::Request { func, headers, .. } = gen_request(rng, &cfg.points, cfg.rx) {
-                            let bytes = refapp::build_request(refapp::Ctrl::request(rng.below(16) as u8), func, &headers);
-                            script.push(Op::Raw { bytes: mutate(rng, &bytes), from: Who::Master, to: Dest::Own });
+                        if let Op::Request { func, headers, .. } =
+                            gen_request(rng, &cfg.points, cfg.rx)
+                        {
+                            let bytes = refapp::build_request(
+                                refapp::Ctrl::request(rng.below(16) as u8),
+                                func,
+                                &headers,
+                            );
+                            script.push(Op::Raw {
+                                bytes: mutate(rng, &bytes),
+                                from: Who::Master,
+                                to: Dest::Own,
+                            });
                         }
                     }
                     5 | 6 => {
-                        let func = if rng.chance(1, 3) { rng.u8() } else { *rng.pick(&[1u8, 2, 3, 4, 5, 6, 7, 9, 13, 20, 21, 22, 23, 24, 25, 27, 31, 0]) };
+                        let func = if rng.chance(1, 3) {
+                            rng.u8()
+                        } else {
+                            *rng.pick(&[
+                                1u8, 2, 3, 4, 5, 6, 7, 9, 13, 20, 21, 22, 23, 24, 25, 27, 31, 0,
+                            ])
+                        };
                         let mut bytes = vec![0xC0 | rng.below(16) as u8, func];
                         bytes.extend(gen_extreme_objects(rng, func != 1));
                         bytes.truncate(cfg.rx);
-                        script.push(Op::Raw { bytes, from: Who::Master, to: if rng.chance(1, 10) { Dest::Bcast(0xFFFF - rng.below(3) as u16) } else { Dest::Own } });
+                        script.push(Op::Raw {
+                            bytes,
+                            from: Who::Master,
+                            to: if rng.chance(1, 10) {
+                                Dest::Bcast(0xFFFF - rng.below(3) as u16)
+                            } else {
+                                Dest::Own
+                            },
+                        });
                     }
                     7 => {
                         // as many arbitrary octets as the receive buffer takes
-                        let n = if rng.bool() { cfg.rx } else { rng.urange(0, cfg.rx) };
-                        script.push(Op::Raw { bytes: rng.bytes(n), from: if rng.chance(1, 8) { Who::Foreign(rng.u16()) } else { Who::Master }, to: Dest::Own });
+                        let n = if rng.bool() {
+                            cfg.rx
+                        } else {
+                            rng.urange(0, cfg.rx)
+                        };
+                        script.push(Op::Raw {
+                            bytes: rng.bytes(n),
+                            from: if rng.chance(1, 8) {
+                                Who::Foreign(rng.u16())
+                            } else {
+                                Who::Master
+                            },
+                            to: Dest::Own,
+                        });
                     }
                     8 | 9 => {
                         script.push(Op::WireBytes(gen_wire_garbage(rng, own, master, true)));
@@ -332,7 +450,9 @@ impl Scenario for HostileMaster {
             }));
         }
         // the probe: is it still serving?
-        script.push(Op::Sleep(cfg.confirm_timeout_ms + cfg.unsol_retry_delay_ms + cfg.select_timeout_ms + 2000));
+        script.push(Op::Sleep(
+            cfg.confirm_timeout_ms + cfg.unsol_retry_delay_ms + cfg.select_timeout_ms + 2000,
+        ));
         if wire_garbage_in_session {
             if cfg.close_mode {
                 script.push(Op::Disconnect { eof: false });
@@ -341,7 +461,12 @@ impl Scenario for HostileMaster {
                 // a resynchronising parser may be sitting on a partial frame: push it out with harmless frames
                 let mut pad = Vec::new();
                 for _ in 0..40 {
-                    pad.extend(reflink::build_frame(&RefFrame { ctrl: 0xC9, dest: own, src: master, payload: Vec::new() }));
+                    pad.extend(reflink::build_frame(&RefFrame {
+                        ctrl: 0xC9,
+                        dest: own,
+                        src: master,
+                        payload: Vec::new(),
+                    }));
                 }
                 script.push(Op::WireBytes(pad));
                 script.push(Op::Sleep(10));
@@ -349,11 +474,21 @@ impl Scenario for HostileMaster {
         }
         let _ = &mut connected;
         script.push(Op::LinkStatusRequest);
-        script.push(Op::Request { func: refapp::FUNC_DELAY_MEASURE, seq: SeqSel::Next, headers: vec![], flags: None, from: Who::Master, to: Dest::Own });
+        script.push(Op::Request {
+            func: refapp::FUNC_DELAY_MEASURE,
+            seq: SeqSel::Next,
+            headers: vec![],
+            flags: None,
+            from: Who::Master,
+            to: Dest::Own,
+        });
         script.push(Op::Sleep(cfg.confirm_timeout_ms + 1000));
         SoutCase {
             cfg,
-            ctrl: CtrlAnswers::Random { seed: rng.next_u64(), success_eighths: 6 },
+            ctrl: CtrlAnswers::Random {
+                seed: rng.next_u64(),
+                success_eighths: 6,
+            },
             chunk: rng.below(5) as u8,
             chunk_seed: rng.next_u64(),
             script,
@@ -388,34 +523,64 @@ impl ProbeOracle {
         let mut probe_link = None;
         let mut probe_app = None;
         if n >= 3 && outstation_epilogue_intact(case) {
-            if let (Op::LinkStatusRequest, Op::Request { func: 23, .. }, Op::Sleep(_)) = (&case.script[n - 3], &case.script[n - 2], &case.script[n - 1]) {
+            if let (Op::LinkStatusRequest, Op::Request { func: 23, .. }, Op::Sleep(_)) = (
+                &case.script[n - 3],
+                &case.script[n - 2],
+                &case.script[n - 1],
+            ) {
                 probe_link = Some(n - 3);
                 probe_app = Some(n - 2);
             }
         }
-        Self { probe_link, probe_app, link_answered: false, app_answered: false, app_seq: None, nontrivial: false, fp: 0, busy: false, counters: BTreeMap::new() }
+        Self {
+            probe_link,
+            probe_app,
+            link_answered: false,
+            app_answered: false,
+            app_seq: None,
+            nontrivial: false,
+            fp: 0,
+            busy: false,
+            counters: BTreeMap::new(),
+        }
     }
 }
 
 impl Oracle for ProbeOracle {
     fn step(&mut self, world: &World, step: &Step) -> Option<Violation> {
         // track whether the outstation is in the middle of something when hostile input arrives
-        let hostile = matches!(step.op, Op::Raw { .. } | Op::WireBytes(_) | Op::Repeat) || matches!(&step.op, Op::Request { flags: Some(_), .. });
-        if hostile && (self.busy || world.sol_confirm_seq.is_some() || world.unsol_confirm_seq.is_some()) {
+        let hostile = matches!(step.op, Op::Raw { .. } | Op::WireBytes(_) | Op::Repeat)
+            || matches!(&step.op, Op::Request { flags: Some(_), .. });
+        if hostile
+            && (self.busy || world.sol_confirm_seq.is_some() || world.unsol_confirm_seq.is_some())
+        {
             self.nontrivial = true;
-            *self.counters.entry("probe.hostile_input_while_busy".to_string()).or_insert(0) += 1;
+            *self
+                .counters
+                .entry("probe.hostile_input_while_busy".to_string())
+                .or_insert(0) += 1;
         }
         if hostile {
-            *self.counters.entry("probe.hostile_inputs".to_string()).or_insert(0) += 1;
+            *self
+                .counters
+                .entry("probe.hostile_inputs".to_string())
+                .or_insert(0) += 1;
         }
-        self.busy = step.received.iter().any(|f| f.bytes.first().map(|c| c & 0x20 != 0).unwrap_or(false));
-        self.fp = mix(&[self.fp, match &step.op {
-            Op::Raw { bytes, .. } => 100 + bytes.get(1).copied().unwrap_or(0) as u64,
-            Op::WireBytes(_) => 2,
-            Op::Request { func, .. } => 300 + *func as u64,
-            Op::Disconnect { .. } => 4,
-            _ => 0,
-        }, self.busy as u64]);
+        self.busy = step
+            .received
+            .iter()
+            .any(|f| f.bytes.first().map(|c| c & 0x20 != 0).unwrap_or(false));
+        self.fp = mix(&[
+            self.fp,
+            match &step.op {
+                Op::Raw { bytes, .. } => 100 + bytes.get(1).copied().unwrap_or(0) as u64,
+                Op::WireBytes(_) => 2,
+                Op::Request { func, .. } => 300 + *func as u64,
+                Op::Disconnect { .. } => 4,
+                _ => 0,
+            },
+            self.busy as u64,
+        ]);
         // the probe: the last link status request and the last plain DELAY_MEASURE of the script
         if self.probe_link.is_some() {
             if matches!(step.op, Op::LinkStatusRequest) {
@@ -424,15 +589,32 @@ impl Oracle for ProbeOracle {
             if step.link_frames.iter().any(|(_, f)| f.ctrl & 0x4F == 0x0B) {
                 self.link_answered = true;
             }
-            if let Op::Request { func: 23, flags: None, from: Who::Master, to: Dest::Own, headers, .. } = &step.op {
+            if let Op::Request {
+                func: 23,
+                flags: None,
+                from: Who::Master,
+                to: Dest::Own,
+                headers,
+                ..
+            } = &step.op
+            {
                 if headers.is_empty() {
-                    self.app_seq = step.sent.as_ref().and_then(|s| s.bytes.first().map(|c| c & 0x0F));
+                    self.app_seq = step
+                        .sent
+                        .as_ref()
+                        .and_then(|s| s.bytes.first().map(|c| c & 0x0F));
                     self.app_answered = false;
                 }
             }
             if let Some(seq) = self.app_seq {
                 // the answer to DELAY_MEASURE: a solicited response with that sequence number carrying g52v2
-                if step.received.iter().any(|f| f.bytes.len() >= 6 && f.bytes[1] == 129 && f.bytes[0] & 0x0F == seq && f.bytes[0] & 0x10 == 0 && f.bytes[4] == 52) {
+                if step.received.iter().any(|f| {
+                    f.bytes.len() >= 6
+                        && f.bytes[1] == 129
+                        && f.bytes[0] & 0x0F == seq
+                        && f.bytes[0] & 0x10 == 0
+                        && f.bytes[4] == 52
+                }) {
                     self.app_answered = true;
                 }
             }
@@ -444,7 +626,10 @@ impl Oracle for ProbeOracle {
         if self.probe_link.is_none() {
             return None;
         }
-        *self.counters.entry("probe.serving_probe_evaluated".to_string()).or_insert(0) += 1;
+        *self
+            .counters
+            .entry("probe.serving_probe_evaluated".to_string())
+            .or_insert(0) += 1;
         if !self.link_answered {
             return Some(Violation::new(
                 "C01/outstation-stopped-serving",
@@ -503,11 +688,21 @@ impl Scenario for HostileOutstation {
     }
 
     fn real_components(&self) -> Vec<&'static str> {
-        vec!["master::task / association / tasks::* / extract", "tcp::client::ClientTask", "transport::real", "link::layer / reader / parser", "app::parse (Display at every decode level)"]
+        vec![
+            "master::task / association / tasks::* / extract",
+            "tcp::client::ClientTask",
+            "transport::real",
+            "link::layer / reader / parser",
+            "app::parse (Display at every decode level)",
+        ]
     }
 
     fn stub_components(&self) -> Vec<&'static str> {
-        vec!["TCP sockets (H3)", "hostile outstations (reference codec + mutators)", "user callbacks (recording stubs)"]
+        vec![
+            "TCP sockets (H3)",
+            "hostile outstations (reference codec + mutators)",
+            "user callbacks (recording stubs)",
+        ]
     }
 
     fn generate(&self, rng: &mut Rng, _tier: Tier) -> SmastCase {
@@ -538,7 +733,11 @@ impl Scenario for HostileOutstation {
         }
         let mut script = vec![MOp::Enable, MOp::Sleep(rng.range(0, 20))];
         if rng.chance(1, 3) {
-            script.push(MOp::AddPoll { assoc: 0, classes: 7, period_ms: 700 });
+            script.push(MOp::AddPoll {
+                assoc: 0,
+                classes: 7,
+                period_ms: 700,
+            });
         }
         let mut wire = false;
         let rounds = rng.urange(3, 12);
@@ -548,14 +747,36 @@ impl Scenario for HostileOutstation {
                 0 | 1 => {
                     if rng.bool() {
                         let n = rng.urange(2, 4);
-                        script.push(MOp::ReadShape { assoc: 0, fragments: (0..n).map(|_| rng.range(1, 4) as u8).collect() });
+                        script.push(MOp::ReadShape {
+                            assoc: 0,
+                            fragments: (0..n).map(|_| rng.range(1, 4) as u8).collect(),
+                        });
                     }
-                    script.push(MOp::User { assoc: 0, kind: UserKind::ReadClasses(0x0F) });
+                    script.push(MOp::User {
+                        assoc: 0,
+                        kind: UserKind::ReadClasses(0x0F),
+                    });
                 }
-                2 => script.push(MOp::User { assoc: 0, kind: crate::verif::props::c16::gen_command(rng) }),
-                3 => script.push(MOp::User { assoc: 0, kind: UserKind::TimeSync(rng.range(1, 3) as u8) }),
-                4 => script.push(MOp::User { assoc: 0, kind: UserKind::FileRead { blocks: rng.range(1, 3) as u8, block_size: rng.range(1, 30) as u8, abort_at: None } }),
-                5 => script.push(MOp::User { assoc: 0, kind: UserKind::Restart { cold: rng.bool() } }),
+                2 => script.push(MOp::User {
+                    assoc: 0,
+                    kind: crate::verif::props::c16::gen_command(rng),
+                }),
+                3 => script.push(MOp::User {
+                    assoc: 0,
+                    kind: UserKind::TimeSync(rng.range(1, 3) as u8),
+                }),
+                4 => script.push(MOp::User {
+                    assoc: 0,
+                    kind: UserKind::FileRead {
+                        blocks: rng.range(1, 3) as u8,
+                        block_size: rng.range(1, 30) as u8,
+                        abort_at: None,
+                    },
+                }),
+                5 => script.push(MOp::User {
+                    assoc: 0,
+                    kind: UserKind::Restart { cold: rng.bool() },
+                }),
                 _ => {}
             }
             if rng.chance(1, 2) {
@@ -569,13 +790,25 @@ impl Scenario for HostileOutstation {
                         // a response-shaped fragment with extreme objects
                         let func = *rng.pick(&[129u8, 129, 130, 131, 0, 1]);
                         let ctrl = (rng.below(16) as u8) << 4 | rng.below(16) as u8;
-                        let mut bytes = vec![if rng.bool() { 0xC0 | (ctrl & 0x0F) } else { ctrl }, func, *rng.pick(&[0u8, 0x80, 0x10, 0xFF]), *rng.pick(&[0u8, 0x08, 0x07, 0xFF])];
+                        let mut bytes = vec![
+                            if rng.bool() {
+                                0xC0 | (ctrl & 0x0F)
+                            } else {
+                                ctrl
+                            },
+                            func,
+                            *rng.pick(&[0u8, 0x80, 0x10, 0xFF]),
+                            *rng.pick(&[0u8, 0x08, 0x07, 0xFF]),
+                        ];
                         bytes.extend(gen_extreme_objects(rng, true));
                         script.push(MOp::Raw { src, bytes });
                     }
                     2 => {
                         let n = rng.urange(0, 2048);
-                        script.push(MOp::Raw { src, bytes: rng.bytes(n) });
+                        script.push(MOp::Raw {
+                            src,
+                            bytes: rng.bytes(n),
+                        });
                     }
                     3 | 4 => {
                         // the next replies are the right ones, damaged
@@ -598,7 +831,12 @@ impl Scenario for HostileOutstation {
                         script.push(MOp::Wire(gen_wire_garbage(rng, 1, 1024, false)));
                         wire = true;
                     }
-                    7 => script.push(MOp::Unsol { assoc: 0, seq: rng.below(16) as u8, data: rng.bool(), con: rng.bool() }),
+                    7 => script.push(MOp::Unsol {
+                        assoc: 0,
+                        seq: rng.below(16) as u8,
+                        data: rng.bool(),
+                        con: rng.bool(),
+                    }),
                     8 => {
                         // an unsolicited response with hostile objects
                         let mut bytes = vec![0xF0 | rng.below(16) as u8, 130, 0, 0];
@@ -608,8 +846,31 @@ impl Scenario for HostileOutstation {
                     9 => script.push(MOp::Cut { eof: rng.bool() }),
                     _ => {
                         // a mutated faithful-looking response
-                        let base = vec![0xC0 | rng.below(16) as u8, 129, 0, 0, 30, 1, 0x00, 0, 1, 0x01, 1, 0, 0, 0, 0x01, 2, 0, 0, 0];
-                        script.push(MOp::Raw { src, bytes: mutate(rng, &base) });
+                        let base = vec![
+                            0xC0 | rng.below(16) as u8,
+                            129,
+                            0,
+                            0,
+                            30,
+                            1,
+                            0x00,
+                            0,
+                            1,
+                            0x01,
+                            1,
+                            0,
+                            0,
+                            0,
+                            0x01,
+                            2,
+                            0,
+                            0,
+                            0,
+                        ];
+                        script.push(MOp::Raw {
+                            src,
+                            bytes: mutate(rng, &base),
+                        });
                     }
                 }
             }
@@ -622,7 +883,11 @@ impl Scenario for HostileOutstation {
         }
         // the probe
         script.push(MOp::ClearReplies);
-        script.push(MOp::SetIin { assoc: 0, iin1: 0, iin2: 0 });
+        script.push(MOp::SetIin {
+            assoc: 0,
+            iin1: 0,
+            iin2: 0,
+        });
         script.push(MOp::Sleep(timeout * 8 + 6000));
         if wire {
             // a parser sitting on a frame that was cut short takes what follows for its body: push it to its verdict
@@ -630,13 +895,23 @@ impl Scenario for HostileOutstation {
             script.push(MOp::LinkPadding { assoc: 0, n: 40 });
         }
         script.push(MOp::Sleep(timeout * 8 + 3000));
-        script.push(MOp::ReadShape { assoc: 0, fragments: vec![2] });
-        script.push(MOp::User { assoc: 0, kind: UserKind::ReadClasses(0x01) });
+        script.push(MOp::ReadShape {
+            assoc: 0,
+            fragments: vec![2],
+        });
+        script.push(MOp::User {
+            assoc: 0,
+            kind: UserKind::ReadClasses(0x01),
+        });
         SmastCase {
             cfg,
             chunk: rng.below(5) as u8,
             chunk_seed: rng.next_u64(),
-            latency: if rng.chance(1, 3) { (rng.below(30), rng.below(30)) } else { (0, 0) },
+            latency: if rng.chance(1, 3) {
+                (rng.below(30), rng.below(30))
+            } else {
+                (0, 0)
+            },
             script,
             tail_ms: 30_000,
         }
@@ -651,16 +926,30 @@ impl Scenario for HostileOutstation {
     }
 }
 
-pub fn analyse_master(case: &SmastCase, run: &MastRun) -> (Option<Violation>, bool, u64, Vec<(String, u64)>) {
+pub fn analyse_master(
+    case: &SmastCase,
+    run: &MastRun,
+) -> (Option<Violation>, bool, u64, Vec<(String, u64)>) {
     use crate::verif::models::mast_hist::{master_time_history, H};
     let hist = master_time_history(case, run);
     let mut counters: BTreeMap<String, u64> = BTreeMap::new();
     let mut violation = None;
     // the probe is the last user request of the script
     let n = case.script.len();
-    let timeout = case.cfg.assocs.first().map(|a| a.response_timeout_ms).unwrap_or(1000);
+    let timeout = case
+        .cfg
+        .assocs
+        .first()
+        .map(|a| a.response_timeout_ms)
+        .unwrap_or(1000);
     let probe = match case.script.last() {
-        Some(MOp::User { kind: UserKind::ReadClasses(0x01), .. }) if n >= 2 && matches!(case.script[n - 2], MOp::ReadShape { .. }) && master_epilogue_intact(&case.script, timeout) => {
+        Some(MOp::User {
+            kind: UserKind::ReadClasses(0x01),
+            ..
+        }) if n >= 2
+            && matches!(case.script[n - 2], MOp::ReadShape { .. })
+            && master_epilogue_intact(&case.script, timeout) =>
+        {
             run.user_kinds.last().map(|u| u.0)
         }
         _ => None,
@@ -671,7 +960,14 @@ pub fn analyse_master(case: &SmastCase, run: &MastRun) -> (Option<Violation>, bo
     // never stalls: whatever the peer sends, a task ends no later than one response timeout after its last own progress
     // (a request written, a response fragment accepted)
     let mut progress: BTreeMap<u16, u64> = BTreeMap::new();
-    let timeout_of = |a: u16| case.cfg.assocs.iter().find(|x| x.address == a).map(|x| x.response_timeout_ms).unwrap_or(1000);
+    let timeout_of = |a: u16| {
+        case.cfg
+            .assocs
+            .iter()
+            .find(|x| x.address == a)
+            .map(|x| x.response_timeout_ms)
+            .unwrap_or(1000)
+    };
     for (_, h) in &hist {
         match h {
             H::TaskStart { func, assoc, t, .. } => {
@@ -719,23 +1015,40 @@ pub fn analyse_master(case: &SmastCase, run: &MastRun) -> (Option<Violation>, bo
                 progress.clear();
             }
             H::MasterRx { bytes, .. } => {
-                let hostile = refapp::decode_fragment(bytes).is_err() || bytes.len() < 4 || !matches!(bytes[1], 129 | 130);
+                let hostile = refapp::decode_fragment(bytes).is_err()
+                    || bytes.len() < 4
+                    || !matches!(bytes[1], 129 | 130);
                 if hostile {
-                    *counters.entry("probe.hostile_fragment_reached_the_application_layer".to_string()).or_insert(0) += 1;
+                    *counters
+                        .entry("probe.hostile_fragment_reached_the_application_layer".to_string())
+                        .or_insert(0) += 1;
                     if running > 0 {
                         nontrivial = true;
-                        *counters.entry("probe.hostile_fragment_while_task_outstanding".to_string()).or_insert(0) += 1;
+                        *counters
+                            .entry("probe.hostile_fragment_while_task_outstanding".to_string())
+                            .or_insert(0) += 1;
                     }
-                    fp = mix(&[fp, 1000 + bytes.get(1).copied().unwrap_or(0) as u64, (running > 0) as u64]);
+                    fp = mix(&[
+                        fp,
+                        1000 + bytes.get(1).copied().unwrap_or(0) as u64,
+                        (running > 0) as u64,
+                    ]);
                 }
             }
             _ => {}
         }
     }
     if let (Some(id), true) = (probe, violation.is_none()) {
-        *counters.entry("probe.serving_probe_evaluated".to_string()).or_insert(0) += 1;
+        *counters
+            .entry("probe.serving_probe_evaluated".to_string())
+            .or_insert(0) += 1;
         let done = hist.iter().find_map(|(_, h)| match h {
-            H::UserDone { id: x, ok, outcome, t } if *x == id => Some((*ok, outcome.clone(), *t)),
+            H::UserDone {
+                id: x,
+                ok,
+                outcome,
+                t,
+            } if *x == id => Some((*ok, outcome.clone(), *t)),
             _ => None,
         });
         match done {
@@ -787,7 +1100,15 @@ fn master_epilogue_intact(script: &[MOp], timeout: u64) -> bool {
     if !long(&script[i], timeout * 8 + 6000) || i < 2 {
         return false;
     }
-    if !matches!(script[i - 1], MOp::SetIin { iin1: 0, iin2: 0, .. }) || !matches!(script[i - 2], MOp::ClearReplies) {
+    if !matches!(
+        script[i - 1],
+        MOp::SetIin {
+            iin1: 0,
+            iin2: 0,
+            ..
+        }
+    ) || !matches!(script[i - 2], MOp::ClearReplies)
+    {
         return false;
     }
     // nothing hostile after the epilogue began
@@ -809,7 +1130,9 @@ fn outstation_epilogue_intact(case: &SoutCase) -> bool {
     if !matches!(s[n - 1], Op::Sleep(ms) if ms >= cfg.confirm_timeout_ms + 1000) {
         return false;
     }
-    if !matches!(&s[n - 2], Op::Request { func: 23, flags: None, from: Who::Master, to: Dest::Own, headers, .. } if headers.is_empty()) || !matches!(s[n - 3], Op::LinkStatusRequest) {
+    if !matches!(&s[n - 2], Op::Request { func: 23, flags: None, from: Who::Master, to: Dest::Own, headers, .. } if headers.is_empty())
+        || !matches!(s[n - 3], Op::LinkStatusRequest)
+    {
         return false;
     }
     let mut i = n - 4;
@@ -836,14 +1159,27 @@ fn outstation_epilogue_intact(case: &SoutCase) -> bool {
         return false;
     }
     // garbage in the session the probe runs on needs the padding / the fresh session
-    let last_connect = s[..i].iter().rposition(|o| matches!(o, Op::Connect)).unwrap_or(0);
-    let garbage = s[last_connect..i].iter().any(|o| matches!(o, Op::WireBytes(_)));
+    let last_connect = s[..i]
+        .iter()
+        .rposition(|o| matches!(o, Op::Connect))
+        .unwrap_or(0);
+    let garbage = s[last_connect..i]
+        .iter()
+        .any(|o| matches!(o, Op::WireBytes(_)));
     // the connection must be up
-    let last_disc = s[..i].iter().rposition(|o| matches!(o, Op::Disconnect { .. }));
+    let last_disc = s[..i]
+        .iter()
+        .rposition(|o| matches!(o, Op::Disconnect { .. }));
     let up = match last_disc {
-        Some(d) => s[d..i].iter().any(|o| matches!(o, Op::Connect)) || had_reconnect_or_pad && matches!(s[n - 5], Op::Connect),
+        Some(d) => {
+            s[d..i].iter().any(|o| matches!(o, Op::Connect))
+                || had_reconnect_or_pad && matches!(s[n - 5], Op::Connect)
+        }
         None => true,
     };
     let enabled = !s.iter().any(|o| matches!(o, Op::Disable));
-    (had_reconnect_or_pad || !garbage) && up && enabled && s.iter().any(|o| matches!(o, Op::Connect))
+    (had_reconnect_or_pad || !garbage)
+        && up
+        && enabled
+        && s.iter().any(|o| matches!(o, Op::Connect))
 }
